@@ -20,7 +20,7 @@ type Program struct {
 	ssa         *ssa.Program
 	pkgs        []*ssa.Package
 	harness     map[string]*ssa.Function // by name, e.g. "C18_order"
-	stubs       map[string]*ssa.Function // mangled callee name -> harness stub
+	stubs       map[string][]*ssa.Function // mangled callee name -> harness stubs (one per harness package)
 	runtimeErrT types.Type
 	buildMu     sync.Mutex
 	built       map[*ssa.Package]bool
@@ -92,7 +92,7 @@ func LoadProgram(repoDir, harnessDir string, pkgDirs []string) (*Program, error)
 		return nil, fmt.Errorf("%d package load errors", nerr)
 	}
 	prog, pkgs := ssautil.AllPackages(initial, ssa.InstantiateGenerics)
-	p := &Program{ssa: prog, harness: map[string]*ssa.Function{}, stubs: map[string]*ssa.Function{},
+	p := &Program{ssa: prog, harness: map[string]*ssa.Function{}, stubs: map[string][]*ssa.Function{},
 		built: map[*ssa.Package]bool{}, modulePath: modulePath, overlayMap: overlayMap}
 	for i, sp := range pkgs {
 		if sp == nil {
@@ -118,7 +118,8 @@ func LoadProgram(repoDir, harnessDir string, pkgDirs []string) (*Program, error)
 				continue
 			}
 			if strings.HasPrefix(name, "stub__") {
-				p.stubs[strings.TrimPrefix(name, "stub__")] = fn
+				k := strings.TrimPrefix(name, "stub__")
+				p.stubs[k] = append(p.stubs[k], fn)
 			} else if strings.HasPrefix(name, "H_") {
 				p.harness[strings.TrimPrefix(name, "H_")] = fn
 			}
@@ -227,4 +228,19 @@ func packageNameOf(dir string) (string, error) {
 		}
 	}
 	return "", fmt.Errorf("no package clause found in %s", dir)
+}
+
+// stubFor returns the harness stub replacing the callee mangled as mn,
+// preferring the one defined in the running harness's own package.
+func (p *Program) stubFor(mn string, harnessPkg *ssa.Package) *ssa.Function {
+	l := p.stubs[mn]
+	for _, f := range l {
+		if f.Pkg == harnessPkg {
+			return f
+		}
+	}
+	if len(l) > 0 {
+		return l[0]
+	}
+	return nil
 }
